@@ -122,3 +122,63 @@ theorem runTreeProofF_clean (node : H → H → H) : ∀ f p lo hi n old,
 
 end
 end ModVerif.Tlog
+
+namespace ModVerif.Tlog
+open ModVerif
+
+/-! ### fuel lemmas: the interval recursions never run out of the fuel `hi - lo` -/
+
+theorem subTreeIndexF_ne_fuel : ∀ f lo hi, hi - lo ≤ f → subTreeIndexF f lo hi ≠ .error .fuel := by
+  intro f
+  induction f with
+  | zero =>
+    intro lo hi h
+    have : ¬ lo < hi := by omega
+    simp [subTreeIndexF, this]
+  | succ f ih =>
+    intro lo hi h
+    unfold subTreeIndexF
+    split
+    · rename_i hlt
+      have hk := maxpow2_fst_pos (hi - lo + 1)
+      split
+      rename_i k level heq
+      rw [heq] at hk
+      split
+      · simp
+      · have := ih (lo + k) hi (by simp only at hk; omega)
+        simp only [bind, Except.bind]
+        split
+        · rename_i e he; intro hc; cases hc; exact this he
+        · simp [pure, Except.pure]
+    · simp
+
+theorem subTreeIndex_ne_fuel (lo hi : Nat) : subTreeIndex lo hi ≠ .error .fuel :=
+  subTreeIndexF_ne_fuel _ lo hi (Nat.le_refl _)
+
+theorem numTreeF_ne_fuel : ∀ f lo hi, hi - lo ≤ f → numTreeF f lo hi ≠ .error .fuel := by
+  intro f
+  induction f with
+  | zero =>
+    intro lo hi h
+    have : ¬ lo < hi := by omega
+    simp [numTreeF, this]
+  | succ f ih =>
+    intro lo hi h
+    unfold numTreeF
+    split
+    · rename_i hlt
+      have hk := maxpow2_fst_pos (hi - lo + 1)
+      split
+      rename_i k level heq
+      rw [heq] at hk
+      split
+      · simp
+      · have := ih (lo + k) hi (by simp only at hk; omega)
+        simp only [bind, Except.bind]
+        split
+        · rename_i e he; intro hc; cases hc; exact this he
+        · simp [pure, Except.pure]
+    · simp
+
+end ModVerif.Tlog
